@@ -64,6 +64,8 @@ func TestC19(t *testing.T) {
 	wg.Wait()
 	run.Require("gauge_checks_during_failover", int64(reps))
 	modelScope(run)
+	breakerSkipGauges(run)
+	run.Require("breaker_skip_gauge_checks", 3)
 	run.Require("model_scope_trials", int64(rep.Pick(200, 3000)/map[bool]int{true: 4, false: 1}[rep.Mode() == "race"]))
 	run.Require("worlds_compared", int64(6*reps))
 	run.Require("gauge_states_matched", int64(6*reps*rep.Pick(3, 10)))
@@ -596,5 +598,68 @@ func modelScope(run *rep.Run) {
 				run.Violation("C19/model/requests-not-recorded-exactly-once", fmt.Sprintf("model %s: %d successes and %d failures were recorded by %d goroutines from a cold start; the collector reports total %d, successes %d, failures %d", m, s, f, G, got.TotalRequests, got.SuccessfulRequests, got.FailedRequests), map[string]any{"goroutines": G, "per_goroutine": per})
 			}
 		}
+	}
+}
+
+// breakerSkipGauges (olla engine): an endpoint that is healthy in the repository but whose
+// engine circuit is open gets *selected and skipped*; a skip is not an attempt, so when the
+// traffic has stopped its gauge must be zero like everybody else's.
+func breakerSkipGauges(run *rep.Run) {
+	for bi, bal := range []string{"least-connections", "round-robin", "priority"} {
+		f, err := fw.New(fw.Opt{Engine: "olla", Balancer: bal, N: 2, Priorities: []int{100, 100}, ReadTimeout: 2 * time.Second})
+		if err != nil {
+			run.Inconclusive("world failed to start: " + err.Error())
+			return
+		}
+		hc := world.NewClient(false, 6*time.Second)
+		f.B[1].SetHealth(500, "")
+		f.W.ForceHealth()
+		hits := 0
+		for i := 0; i < 8 && hits < 5; i++ {
+			c := f.Run(hc, fmt.Sprintf("bs%dt%d", bi, i), []fw.Fault{{Kind: "eof_before_headers"}, {Kind: "ok"}}, "", nil, nil)
+			hits += len(c.Attempts)
+		}
+		f.Readmit()
+		if hits < 5 || f.W.Statuses()["b0"] != "healthy" {
+			run.Inconclusive("could not open b0's engine breaker while keeping it healthy")
+			f.Close()
+			continue
+		}
+		skipped, served := 0, 0
+		for i := 0; i < 8; i++ {
+			c := f.Run(hc, fmt.Sprintf("bs%dr%d", bi, i), []fw.Fault{{Kind: "ok"}, {Kind: "ok"}}, "", nil, nil)
+			on0 := false
+			for _, a := range c.Attempts {
+				if a.Backend == 0 {
+					on0 = true
+				}
+			}
+			if !on0 {
+				skipped++
+			}
+			if c.Res.Status >= 200 && c.Res.Status < 300 {
+				served++
+			}
+		}
+		var cs map[string]int64
+		zero := false
+		for p := 0; p < 200 && !zero; p++ {
+			cs = f.W.Stats().GetConnectionStats()
+			zero = true
+			for _, g := range cs {
+				if g != 0 {
+					zero = false
+				}
+			}
+			if !zero {
+				time.Sleep(10 * time.Millisecond)
+			}
+		}
+		run.Count("breaker_skip_gauge_checks", 1)
+		run.Eval(fmt.Sprintf("breaker-skip-gauges/%s", bal))
+		if !zero {
+			run.Violation("C19/gauge/not-zero-after-traffic-stopped/after-circuit-open-skips", fmt.Sprintf("%d requests were served while b0's engine circuit was open (b0 contacted by none of %d); 2 s after the last one the reported active connections are %v", served, skipped, cs), map[string]any{"balancer": bal})
+		}
+		f.Close()
 	}
 }
